@@ -8,7 +8,9 @@ import SdnsVerif.Props.C08
 #print axioms SdnsVerif.Props.C08.descendant_le_stored_ancestor
 #print axioms SdnsVerif.Props.C08.no_self_extension
 #print axioms SdnsVerif.Props.C08.learned_data_bounded
+#print axioms SdnsVerif.Props.C08.alias_lineage_inherited
 #print axioms SdnsVerif.Props.C08.refresh_keeps_cut
 #print axioms SdnsVerif.Props.C08.remaining_le_cut
 #print axioms SdnsVerif.Props.C08.boundcut_min_fold
+#print axioms SdnsVerif.Props.C08.deadlines_keep_monotonic_reading
 #print axioms SdnsVerif.Props.C08.shape_facts_hold
